@@ -394,6 +394,7 @@ class Check:
             self.violations.append((b["what"], {"kind": b["kind"], "theorem_or_correspondence": b["what"], "detail": b["detail"],
                                                 "all_breaks": [x["what"] for x in breaks]}, False))
         self.cov["distinct_nontrivial"] = len(self.distinct)
+        self.cov["breaks"] = [{"kind": b["kind"], "what": b["what"], "detail": str(b["detail"])[:1500]} for b in breaks[:5]]
         os.makedirs(os.path.join(ROOT, "replays"), exist_ok=True)
         lines = []
         for fid, what in sorted(self.known_hits.items()):
